@@ -108,3 +108,11 @@ pub fn input_ops(src: &str, ops: &[Option<(usize, usize)>]) -> Vec<(usize, usize
     }
     out
 }
+
+pub fn skip_trivia(src: &str) -> Option<usize> {
+    crate::lexer::verif_skip_trivia(src)
+}
+
+pub fn comment(src: &str) -> Option<(String, usize)> {
+    crate::lexer::verif_comment(src)
+}
